@@ -12,6 +12,9 @@ package mongodb
 // never the checkpoint object of the request being served
 //@ pred docSep(d *schema.DatatypeDoc, cp *model.CheckPoint) = forall c string :: (c in d.RWClients ==> d.RWClients[c].CP != cp) && (c in d.ROClients ==> d.ROClients[c].CP != cp)
 
+// keyExists(colNum, key): a datatype document with that collection number and key is stored
+//@ function keyExists(colNum int32, key string) bool
+
 // Repository methods used by the push-pull handler. Trusted at this level: each wraps one
 // MongoDB driver command (FindOne/Find/InsertMany/UpdateOne) and decodes BSON; the filter
 // construction inside them is under contract separately (C17).
@@ -19,6 +22,7 @@ package mongodb
 //@   trusted MongoDB FindOne with filter {colNum, key} + BSON decode
 //@   mode math
 //@   ensures result1 != nil ==> result0 == nil
+//@   ensures[finds-iff-stored] result1 == nil ==> (result0 != nil) == keyExists(collectionNum, key)
 //@   ensures result0 != nil ==> fresh(result0) && result0.Key == key && result0.CollectionNum == collectionNum && docWF(result0)
 //@   ensures[inv-log] result0 != nil ==> result0.Sseq.End == G.stored && G.stored < 4611686018427387904
 //@   ensures result0 != nil ==> (forall c string :: (c in result0.RWClients ==> fresh(result0.RWClients[c].CP)) && (c in result0.ROClients ==> fresh(result0.ROClients[c].CP)))
